@@ -9,6 +9,16 @@ TRUST = ('Trusted: nightly MIR == what stable rustc builds (counterexamples are 
          '(listed per run in the evidence, validated by the concrete differential self-test against the native binary). ')
 
 CLAIMED = {
+    'C01': ('Lane B3: one iteration of the real LdapConnAsync::turn coroutine (incl. the expanded tokio::select!) runs from MIR from an arbitrary pre-state (symbolic, pairwise distinct routing IDs; in-use set an unconstrained array) with every awaited foreign future an environment stub; the ready event, the response ID and operation tag, the select! start index and a simultaneously ready second source are symbolic. z3 proves: a response goes to exactly the sender stored under its ID (search table first: tags 4|25 entry, 19 reference, 5 done), unchanged; to nobody if the ID is unknown; no other table entry or sender is touched; a request is filed under its own ID only; the loser of a ready-event race stays queued.',
+            TRUST + 'Per-operation ordering rests on the single consumer and FIFO tokio channels (trusted). Byte-level segmentation is C06, ID allocation C05. Counterexamples are reproduced by role against a scripted in-process peer.', '§6 C01'),
+    'C04': ('Safety half. Lane B3: one iteration of the real LdapConnAsync::turn coroutine (incl. the expanded tokio::select!) runs from MIR from an arbitrary pre-state (symbolic, pairwise distinct routing IDs; in-use set an unconstrained array) with every awaited foreign future an environment stub; on end-of-stream, receive/decode error, failed write, closed request/misc channel the driver returns (dropping every reply sender) and never fabricates data; Unbind = send, shutdown, close, acknowledge; with all handles gone some resolution of the select! race finishes the driver (reachability). Client side (op_call, stream next): closed channels map to OpSend / ResultRecv / EndOfStream, delivered replies are returned.',
+            TRUST + 'NOT decided: that every waiting future is eventually woken ("never hangs") - liveness over wakers and the scheduler. Fault positions inside a byte stream are not enumerated: the stub answers "error now" at each await.', '§6 C04'),
+    'C10': ('Lane B3, client side: SearchStream::{next,finish,state} with next_inner/finish_inner and the EntriesOnly adapter (through the async_trait vtable) run from coroutine MIR over 8 item scripts x every call word over next/finish/state of length 1..4 (6) x direct/adapted, contents symbolic; compared call by call with the property\'s state machine (items in order, Ok(None) at the end and outside Active, finish = server result+controls / 88 / 80, Fresh-Active-Done-Closed/Error, reference URIs merged). Ldap::search() collection loop likewise.',
+            TRUST + 'tokio::sync::Mutex around adapters is modelled as always available. PagedResults is C16 (not claimed).', '§6 C10'),
+    'C12': ('Expiry logic. op_call and SearchStream::next run from MIR with the timer stub answering either way: on expiry exactly one scrub for the operation\'s own ID and a Timeout error, on a reply the reply; every item wait of a timed stream is under a fresh timer; the driver\'s scrub branch (one iteration, arbitrary pre-state) removes exactly that ID from both routing tables and the in-use set; a later response under that ID is delivered to nobody.',
+            TRUST + 'NOT decided: that the timer fires at its deadline (tokio timer wheel).', '§6 C12'),
+    'C13': ('One-step release facts for every release site of the driver (result delivery with live or dead receiver, scrub, Abandon incl. the abandoned ID, search Done / dead item receiver) from an arbitrary pre-state: exactly the right ID leaves the in-use set and the routing tables, nothing else; client side: expiry and early finish() send the scrub for the stream\'s own ID, a stream read to Done sends none.',
+            TRUST + 'Histories are compositions of these steps; they are not enumerated beyond the scripted client-side lanes.', '§6 C13'),
     'C18': ('from_url_with_settings / new_tcp / new_unix run from the coroutine MIR of the default-feature (TLS) build up to the first socket call, with url::Url::{scheme,host_str,port} and the pre-opened stream kind as nondeterministic stubs: for every scheme (ldap, ldaps, ldapi, any other), host (absent, empty, 1..3 (4) symbolic host characters incl. percent sequences), port (absent or any u16), stream kind, timeout and StartTLS flag z3 proves the documented error for unknown schemes / empty or port-bearing ldapi paths / mismatched streams, the TCP target (URL host or localhost, URL port or 389/636), the percent-decoded Unix path, that a connection timeout wraps the whole new_tcp future, and that no path panics.',
             TRUST + 'Pre-connect part only: socket establishment, StartTLS and the TLS handshake are outside (C17 is not applicable). Stub contract of the url crate accessors is validated on every replay.', '§6 C18'),
     'C14': ('Each of the 22 LdapConn / EntryStream methods runs from MIR with Runtime::block_on modelled as "drive to completion" and the same-named Ldap / SearchStream method as an intercepted, uninterpreted callee resolving to Ok(token) or Err(token), with the handle\'s closed flag symbolic: exactly one forwarded call, to the right method, on the wrapper\'s own handle/stream, arguments unchanged, returned value exactly the callee\'s; with_controls/with_timeout/with_search_options/last_id/is_closed compared with the async versions on an identical handle. Counterexamples are reproduced as a behavioural difference between both APIs against the same scripted in-process peer.',
